@@ -87,7 +87,7 @@ CHECKS = {
             'Consumer state is restored between delivery sequences from deep copies of the tables (self-checked); provider restart is '
             'modelled by assigning new ids; (c) models the deferred dispatcher by a FIFO between endpoint and a delivery thread.', '3/C06'),
     'C07': ('S', 'stateless preemption-bounded schedule exploration (CHESS-style iterative context bounding) of real request and writer threads under a cooperative baton scheduler; scheduling points at every lock acquire/release, plus a statement-granularity pass inside the handler and commit functions',
-            'Extensions: statement-granularity pass - every statement of the Get handlers, the MDIB reconstruction and the commit path is a scheduling point (sys.settrace line events in the scheduled threads), one preemption (thorough two), 12 scenarios; scenarios in which the requested handle itself is created / deleted by the concurrent transaction; schedule tree split over the workers (run_partitioned), thorough caps per subtree group. '
+            'Extensions: writer that creates a context state and then deletes it in a context transaction of its own (no report is sent for that, but it is a commit): one MdibVersion must never name two contents; statement-granularity pass - every statement of the Get handlers, the MDIB reconstruction and the commit path is a scheduling point (sys.settrace line events in the scheduled threads), one preemption (thorough two), 12 scenarios; scenarios in which the requested handle itself is created / deleted by the concurrent transaction; schedule tree split over the workers (run_partitioned), thorough caps per subtree group. '
             '18 scenarios of 1-2 Get request threads (GetMdib, GetMdDescription all/one handle, GetMdState all/some handles, '
             'GetContextStates all/one descriptor - real request bytes through the real provider dispatch chain and handlers) against '
             '1-2 writer threads (metric, location, patient, descriptor update/create/delete transactions) run as real Python threads of '
